@@ -22,7 +22,8 @@ Record problem := {
 Definition zmax (l : list Z) : Z := match l with [] => 0 | x :: r => fold_left Z.max r x end.
 Definition p_n (p : problem) : nat := length (p_tag p).
 Definition p_tagf (p : problem) (i c : nat) : Z := nth c (nth i (p_tag p) []) 0.
-Definition p_depf (p : problem) (i j : nat) : Z := nth j (nth i (p_dep p) []) 0.
+(* out-of-range reads (never performed on licensed derivations) return the row maximum, so that dep <= bestdep holds everywhere *)
+Definition p_depf (p : problem) (i j : nat) : Z := nth j (nth i (p_dep p) []) (zmax (nth i (p_dep p) [])).
 Definition p_besttag (p : problem) (i : nat) : Z := row_best (nth i (p_tag p) []).
 Definition p_bestdep (p : problem) (i : nat) : Z := zmax (nth i (p_dep p) []).
 Definition p_adm (p : problem) (i : nat) : list nat := beam (p_use_beta p) (p_theta p) (p_pruning p) (nth i (p_tag p) []).
